@@ -294,7 +294,12 @@ def lift_namedcolor(model):
             got.append(back)
             if any(v != "%d %d %d" % (r, g, b) for v in back):
                 bad.append({"name": txt, "read back": back})
-    return {"scss": "a{b: rgb(%d, %d, %d)}" % (r, g, b), "want": "a name that reads back as (%d, %d, %d)" % (r, g, b), "got": got, "disagreements": bad, "reproduced": bool(bad)}
+    if not bad:
+        # the model's triple usually has no name: the named colours whose values are beyond doubt are the witnesses then
+        sp = structural_probe("k_rgba_name") or {}
+        bad = list(sp.get("disagreements") or [])[:6]
+    return {"scss": "a{b: rgb(%d, %d, %d)}" % (r, g, b), "want": "a name that reads back as (%d, %d, %d); named colours read back as their CSS values" % (r, g, b), "got": got,
+            "disagreements": bad, "reproduced": bool(bad)}
 
 
 
